@@ -309,6 +309,8 @@ class VDatetime(metaclass=_DTMeta):
 
     @staticmethod
     def fromisoformat(s):
+        if isinstance(s, SDatetime):
+            return s          # a sentinel already mapped back: stands for "the ISO text of this instant"
         c = Ctx.cur
         if c is not None and s in c.sentinels:
             v = c.sentinels[s]
